@@ -127,8 +127,8 @@ let () =
              if ks <> os then fail itn (Printf.sprintf "key-order-is-not-the-models-table:model=%s:logged=%s"
                                           (Stdlib.String.concat "+" (Stdlib.List.map (fun k -> name (n_of_int k)) ks))
                                           (Stdlib.String.concat "+" (Stdlib.List.map (fun k -> name (n_of_int k)) os)))
-             else incr readmit      (* admission of an address already present, or a broadcast order off the table: the
-                                       comparison of dispatches and writes below decides whether model and code agree *)
+             else incr readmit      (* a broadcast that did not visit exactly the table: the comparison of the writes
+                                       below decides whether model and code agree *)
            end;
            if !err = "" then begin
              match AsyncApp.poll cfg !st inp with
@@ -182,3 +182,26 @@ let () =
           (Stdlib.List.length (AsyncApp.keys !st.AsyncApp.streams))
       end
     | _ -> "BADARGS")
+
+(* the closed examples of props/C12.v evaluated by the extracted code (spot check of extraction) *)
+let () =
+  register "c12_examples" (function
+    | _ ->
+      let sd = function
+        | AsyncApp.Connect a -> Printf.sprintf "C%d" (int_of_n a)
+        | AsyncApp.Message (a, m) -> Printf.sprintf "M%d.%d" (int_of_n a) (int_of_n m)
+        | AsyncApp.Disconnect a -> Printf.sprintf "D%d" (int_of_n a) in
+      let sw = function
+        | AsyncApp.WMsg (a, m) -> Printf.sprintf "w%d.%d" (int_of_n a) (int_of_n m)
+        | AsyncApp.WPing a -> Printf.sprintf "p%d" (int_of_n a) in
+      let ss = function AsyncApp.Running -> "running" | AsyncApp.Exited -> "exited" | AsyncApp.Stuck -> "stuck"
+                        | AsyncApp.Crashed -> "crashed" in
+      let show t = Printf.sprintf "%s[%s][%s]" (ss t.AsyncApp.t_status)
+          (Stdlib.String.concat "," (Stdlib.List.map sd t.AsyncApp.t_disp))
+          (Stdlib.String.concat "," (Stdlib.List.map sw t.AsyncApp.t_writes)) in
+      let i0 = AsyncApp.init N0 in
+      Stdlib.String.concat " "
+        [ "demo=" ^ show (AsyncApp.run AsyncAppProofs.cfg_hb i0 AsyncAppProofs.demo_hist);
+          "stale_old=" ^ show (AsyncApp.run_old AsyncAppProofs.cfg_all i0 AsyncAppProofs.stale_hist);
+          "stale_new=" ^ show (AsyncApp.run AsyncAppProofs.cfg_all i0 AsyncAppProofs.stale_hist);
+          "blocked=" ^ show (AsyncApp.run AsyncAppProofs.cfg_all i0 AsyncAppProofs.blocked_hist) ])
